@@ -34,7 +34,7 @@ MIDO_KEYS = ['A', 'A#m', 'Ab', 'Abm', 'Am', 'B', 'Bb', 'Bbm', 'Bm', 'C', 'C#', '
 def context(tier, seed):
     base = "/dev/shm" if os.path.isdir("/dev/shm") and os.access("/dev/shm", os.W_OK) else None
     k = 5 if tier == "quick" else 6
-    return {"tier": tier, "k": k, "p": [60, 30, 100][seed % 3], "tmpdir": tempfile.mkdtemp(prefix="scoda_c13_", dir=base),
+    return {"tier": tier, "k": k, "p": [60, 30, 45][seed % 3], "tmpdir": tempfile.mkdtemp(prefix="scoda_c13_", dir=base),
             "bounds": {"ticks_per_beat": TPBS, "deltas": DELTAS, "max_word_length": k, "tracks": [1, 3 if tier == "quick" else 4],
                        "long_run_events": 200, "key_names": 30}}
 
@@ -115,7 +115,7 @@ def events_of_word(word, p):
         t += d
         k = cyc[i % 6]
         if k == "on":
-            note = p + (i // 3) % 40
+            note = p + (i // 3) % 40          # p <= 60, so every generated pitch stays below 128
             out.append((t, d, "on", note))
         elif k in ("off", "off0"):
             out.append((t, d, k, note))
